@@ -155,16 +155,26 @@ namespace Hd.Pool
     `HttpConnection`, which the pool model takes as `isOpenC` with `lax = false`: it reports open exactly
     when it can take a request now, and it cannot be shared. -/
 def connLine (inp obs : List String) : Bool × Bool × String × String :=
-  if obs.length != inp.length || obs.isEmpty then (false, false, "C02/unparsable-observation", "") else
-  let bad := obs.filterMap fun t =>
+  let h2 := inp.head? == some "h2"
+  let ops := if h2 then inp.drop 1 else inp
+  if obs.length != ops.length || obs.isEmpty then (false, false, "C02/unparsable-observation", "") else
+  -- HTTP/2: from the step at which the peer goes away the connection must stop calling itself open
+  let closedFrom := (ops.findIdx? (· == "close")).getD ops.length
+  let bad := (obs.zip (List.range obs.length)).filterMap fun (t, k) =>
     match t.toList with
     | [o, r, sh] =>
-      if o == '1' && r != 'R' then some "C02/open-but-not-ready"
+      if h2 then
+        if sh != '1' then some "C04/http2-connection-not-shareable"
+        else if k ≥ closedFrom && o == '1' then some "C05/closed-connection-reported-open"
+        else if k < closedFrom && o == '0' then some "C04/open-connection-reported-closed"
+        else none
+      else if o == '1' && r != 'R' then some "C02/open-but-not-ready"
       else if o == '0' && r == 'R' then some "C04/ready-connection-reported-closed"
       else if sh != '0' then some "C02/http1-connection-shareable"
       else none
     | _ => some "C02/unparsable-observation"
   let cls := bad.foldl (fun acc c => if acc.contains c then acc else acc ++ [c]) ([] : List String)
-  (cls.isEmpty, cls.isEmpty, if cls.isEmpty then "-" else ",".intercalate cls, "is_open = (poll_ready = Ready(Ok)), can_share = 0")
+  (cls.isEmpty, cls.isEmpty, if cls.isEmpty then "-" else ",".intercalate cls,
+   if h2 then "can_share = 1, is_open until the peer is gone" else "is_open = (poll_ready = Ready(Ok)), can_share = 0")
 
 end Hd.Pool
